@@ -458,3 +458,147 @@ def replay(path, prop):
         return 1
     print("not reproduced on the current tree: %s x=%d factor=%d/%d" % (t, x, n, d))
     return 0
+
+
+# ------------------------------------------------------------------------------------------------
+# C04, floating clause: overflow is reported for every finite value whose scaled magnitude exceeds
+# the type's largest finite value and never for values safely below it.
+
+FLOAT_TEMPLATE = r'''
+#include "sweep.hh"
+#include <cmath>
+#include <cfloat>
+namespace {
+// |x| * m compared with max(T), all in (mantissa, exponent) form so nothing overflows.
+// returns +1: certainly above max*(1+4eps); -1: certainly below max*(1-4eps); 0: band
+template <typename T>
+int classify(T x, long double m) {
+    if (x == 0) return -1;
+    int ex = 0, em = 0;
+    long double fx = std::frexp(static_cast<long double>(std::fabs(x)), &ex);
+    long double fm = std::frexp(m, &em);
+    long double p = fx * fm;            // in [0.25, 1)
+    long e = (long)ex + em;
+    if (p < 0.5L) { p *= 2; --e; }
+    // max(T) = (1 - 2^-digits) * 2^max_exponent
+    const long me = std::numeric_limits<T>::max_exponent;
+    const long double eps = std::ldexp(1.0L, -std::numeric_limits<T>::digits + 1);
+    if (e > me + 1) return +1;
+    if (e < me - 1) return -1;
+    const long double mx = 1.0L - std::ldexp(1.0L, -std::numeric_limits<T>::digits);
+    const long double r = std::ldexp(p, (int)(e - me)) / mx;     // (|x| * m) / max(T), no overflow possible here
+    if (r > 1 + 4 * eps) return +1;
+    if (r < 1 - 4 * eps) return -1;
+    return 0;
+}
+template <typename I>
+void runf(int id) {
+    typedef typename I::T T;
+    typename I::Target target{};
+    const long double m = I::m();
+    std::vector<T> vals;
+    const T mx = std::numeric_limits<T>::max();
+    const T thr = static_cast<T>(static_cast<long double>(mx) / m);   // breakpoint (may be inf / 0)
+    const T centers[] = {thr, mx, std::numeric_limits<T>::min(), std::numeric_limits<T>::denorm_min(), T(1), T(0),
+                         static_cast<T>(1 / m), static_cast<T>(thr / 2), static_cast<T>(thr * 2)};
+    for (T c : centers) {
+        if (!(c == c) || std::isinf(c)) c = mx;
+        T up = c, dn = c;
+        for (int k = 0; k < I::RADIUS; ++k) {
+            vals.push_back(up); vals.push_back(-up); vals.push_back(dn); vals.push_back(-dn);
+            up = std::nextafter(up, std::numeric_limits<T>::infinity());
+            dn = std::nextafter(dn, T(0));
+        }
+    }
+    for (int e = std::numeric_limits<T>::min_exponent - std::numeric_limits<T>::digits; e <= std::numeric_limits<T>::max_exponent; e += I::ESTEP) {
+        const long double fr[] = {0.5L, 0.5L + std::ldexp(1.0L, -std::numeric_limits<T>::digits), 0.75L, 1.0L - std::ldexp(1.0L, -std::numeric_limits<T>::digits)};
+        for (long double f : fr) { T v = static_cast<T>(std::ldexp(f, e)); if (std::isfinite(v)) { vals.push_back(v); vals.push_back(-v); } }
+    }
+    unsigned long long n = 0, n_ovf = 0, n_band = 0, n_viol = 0, n_trunc = 0;
+    int shown = 0;
+    for (T x : vals) {
+        if (!std::isfinite(x)) continue;
+        const auto q = au::meters(x);
+        const bool lo = au::will_conversion_overflow(q, target);
+        const bool lt = au::will_conversion_truncate(q, target);
+        const bool ll = au::is_conversion_lossy(q, target);
+        const int c = classify<T>(x, m);
+        ++n; n_ovf += lo; n_band += (c == 0); n_trunc += lt;
+        const char *kind = nullptr;
+        if (c > 0 && !lo) kind = "float-ovf-fn";
+        else if (c < 0 && lo) kind = "float-ovf-fp";
+        else if (ll != (lo || lt)) kind = "lossy-not-disjunction";
+        if (kind) {
+            ++n_viol;
+            if (shown++ < 3) std::printf("V {\"inst\":%d,\"T\":\"%s\",\"m\":\"%s\",\"x\":\"%La\",\"kind\":\"%s\",\"lib_ovf\":%d}\n", id, I::tname(), I::mname(), (long double)x, kind, (int)lo);
+        }
+    }
+    std::printf("S {\"inst\":%d,\"T\":\"%s\",\"m\":\"%s\",\"evals\":%llu,\"ovf\":%llu,\"band\":%llu,\"viol\":%llu,\"trunc\":%llu}\n", id, I::tname(), I::mname(), n, n_ovf, n_band, n_viol, n_trunc);
+}
+}
+'''
+
+
+def explore_float(run):
+    from . import model
+    from .checks.c06 import mag_expr
+    from fractions import Fraction as Fr
+    tier = run.tier
+    cfg = core.GXX14
+    mags = [("2", model.mag_int(2)), ("1/2", model.mag_ratio(1, 2)), ("1000", model.mag_int(1000)), ("1/1000", model.mag_ratio(1, 1000)),
+            ("10^9", model.mag_int(10 ** 9)), ("10^-9", model.mag_ratio(1, 10 ** 9)), ("10^30", model.vpow(model.mag_int(10), 30)),
+            ("10^-30", model.vpow(model.mag_int(10), -30)), ("10^38", model.vpow(model.mag_int(10), 38)), ("10^39", model.vpow(model.mag_int(10), 39)),
+            ("10^300", model.vpow(model.mag_int(10), 300)), ("10^-300", model.vpow(model.mag_int(10), -300)), ("10^4000", model.vpow(model.mag_int(10), 4000)),
+            ("2^127", model.vpow(model.mag_int(2), 127)), ("2^128", model.vpow(model.mag_int(2), 128)), ("2^-126", model.vpow(model.mag_int(2), -126)),
+            ("2^1023", model.vpow(model.mag_int(2), 1023)), ("2^-1000", model.vpow(model.mag_int(2), -1000)),
+            ("1250/381", model.mag_ratio(1250, 381)), ("381/1250", model.mag_ratio(381, 1250)), ("5/9", model.mag_ratio(5, 9)), ("3600", model.mag_int(3600)),
+            ("pi", dict(model.MAG_PI)), ("180/pi", model.vdiv(model.mag_int(180), model.MAG_PI)), ("pi/180", model.vdiv(model.MAG_PI, model.mag_int(180))),
+            ("sqrt2", {2: Fr(1, 2)}), ("3", model.mag_int(3)), ("1/3", model.mag_ratio(1, 3)), ("2^64-59", model.mag_int(2 ** 64 - 59))]
+    cands = [(t, name, m) for t in core.F3 for name, m in mags]
+    probes = []
+    for idx, (t, name, m) in enumerate(cands):
+        tgt = "decltype(au::Meters{} / (%s))" % mag_expr(m)
+        probes.append(core.Probe(idx, "using Tg = %s; auto q = au::meters(static_cast<%s>(1)); (void)q.coerce_in(Tg{}); (void)au::will_conversion_overflow(q, Tg{});" % (tgt, t), "accept"))
+    res, _ = core.run_probes(cfg, probes, os.path.join(run.wd, "fdom"), "fdom", flags=cflags(cfg))
+    dom = [c for i, c in enumerate(cands) if res[i][0] == "accept"]
+    if len(dom) < 0.5 * len(cands):
+        raise core.InfraError("float clause vacuity guard: %d of %d instances compile" % (len(dom), len(cands)))
+    wd = os.path.join(run.wd, "float")
+    os.makedirs(wd, exist_ok=True)
+    out = [FLOAT_TEMPLATE, "namespace {"]
+    for i, (t, name, m) in enumerate(dom):
+        val = model.mag_decimal(m)
+        out.append('struct F%d { typedef %s T; typedef decltype(au::Meters{} / (%s)) Target; static long double m() { return %sL; } '
+                   'static const char *tname() { return "%s"; } static const char *mname() { return "%s"; } static const int RADIUS = %d; static const int ESTEP = %d; };'
+                   % (i, t, mag_expr(m), "{:.30E}".format(val), t, name, 64 if tier == "quick" else 4096, 7 if tier == "quick" else 1))
+    out.append("}")
+    out.append("int main(int argc, char **argv) { int part = argc > 1 ? std::atoi(argv[1]) : 0, np = argc > 2 ? std::atoi(argv[2]) : 1; int k = 0;")
+    for i in range(len(dom)):
+        out.append("  if (k++ %% np == part) runf<F%d>(%d);" % (i, i))
+    out.append("  return 0; }")
+    src = os.path.join(wd, "fl.cc")
+    open(src, "w").write("\n".join(out) + "\n")
+    exe = os.path.join(wd, "fl")
+    fl = ["-O1"] + cflags(cfg)
+    rc, err = core.build_exe(cfg, src, exe, fl)
+    if rc != 0:
+        raise core.InfraError("float sweep TU failed to build:\n%s" % err[-2500:])
+    stats, viols = [], []
+    outs = core.pmap(lambda p: core.sh([exe, str(p), str(core.NCPU)], timeout=3600), range(core.NCPU))
+    for rc, o, e in outs:
+        if rc != 0:
+            raise core.InfraError("float sweep failed: %s" % e[-500:])
+        for line in o.split("\n"):
+            if line.startswith("S "):
+                stats.append(json.loads(line[2:]))
+            elif line.startswith("V "):
+                viols.append(json.loads(line[2:]))
+    for v in viols:
+        key = "C04:%s:T=%s:m=%s:x=%s" % (v["kind"], v["T"], v["m"], v["x"])
+        what = "%s: %s value x=%s scaled by %s: library overflow=%d" % (v["kind"], v["T"], v["x"], v["m"], v["lib_ovf"])
+        run.violation(key, what, run.write_replay(key, {"kind": "float-value", "T": v["T"], "m": v["m"], "x": v["x"], "what": what}))
+    if any(s["trunc"] for s in stats):
+        pass   # floats: by convention no truncation; recorded only
+    return {"float_instances": len(dom), "float_instances_candidates": len(cands), "float_evaluations": sum(s["evals"] for s in stats),
+            "float_dont_care_band": sum(s["band"] for s in stats),
+            "float_instances_with_both_outcomes": sum(1 for s in stats if 0 < s["ovf"] < s["evals"])}
